@@ -523,6 +523,14 @@ def tasks():
             out.append(ContractTask(c, regf_mgr))
         else:
             out.append(ContractTask(c, regf_roles))
+    # the inbound loops of one L2 link (C12 proves them on the three interleaved real bodies): the Follower sends its KCM once
+    # per Handshake token, got_kcm only for a KCM that decrypt_message returned on this link, records reach the manager only in
+    # `selected`, connectionLost fires the link's observers once
+    from . import c12
+    for t in c12.tasks():
+        if t.contract.target.endswith(("DilatedConnectionProtocol.dataReceived", "DilatedConnectionProtocol.connectionLost",
+                                       "_Record.add_and_unframe")):
+            out.append(t)
     # noticing a lost connection (the precondition of any re-convergence) rests on the Leader's timer discipline:
     # C16's timer tasks are run here too, so that a change which wedges the timer fails this check as well
     from . import c16
@@ -557,7 +565,10 @@ ASSUMPTIONS = [
     "Manager.rx_PLEASE / choose_role: the message is a dict (received_dilation_message has just read message['type']); a missing, "
     "non-str or reflected 'side' raises KeyError / TypeError / ValueError and leaves the Manager without a role (stated, not excluded)",
     "Manager.connector_connection_lost is called for the connection in use (wired by DilatedConnectionProtocol.set_manager at select())",
-    "DilatedConnectionProtocol.dataReceived / _Record.add_and_unframe are generators/loops over the framer: outside the subset here "
-    "(C12 covers framing); the Follower's own KCM is sent there, the Leader's only in Connector.select_and_stop_remaining (proved)",
+    "DilatedConnectionProtocol.dataReceived / _Record.add_and_unframe / connectionLost are verified by the C12 tasks run here too "
+    "(real bodies interleaved): the Follower's own KCM is sent once per Handshake token, got_kcm is called only for a KCM that "
+    "decrypt_message returned on this link; a second KCM, or a record before any KCM, raises automat.NoTransition out of "
+    "dataReceived and reaches nobody (Twisted drops a connection whose dataReceived raises: trusted); the Leader's KCM is sent only "
+    "in Connector.select_and_stop_remaining (proved)",
     "Noise authenticity (C12 assumption) is what makes 'KCM decrypted on this link' mean 'the Leader confirmed this link'",
 ]
